@@ -92,11 +92,14 @@ class WebVTTReader(BaseReader):
                     raise type(e)(new_msg).with_traceback(tb) from None
 
             elif "" == line:
-                if found_timing and nodes:
+                if found_timing:
+                    # the cue block ends here even if it had no text
                     found_timing = False
-                    caption = Caption(start, end, nodes, layout_info=layout_info)
-                    captions.append(caption)
-                    nodes = []
+                    if nodes:
+                        caption = Caption(
+                            start, end, nodes, layout_info=layout_info)
+                        captions.append(caption)
+                        nodes = []
             else:
                 if found_timing:
                     if nodes:
